@@ -92,6 +92,14 @@ PROPS = {
         units=[
         unit("c13", "proxy", PROXY_COMMON + ["proxy/c13_test.go"], "^TestVerifC13", engines=SCHED, rewrite=ROUTE_RW, race=True, sched_env={"GOMAXPROCS": "2"}),
     ], layers={"quick": ["c13-inputs", "c13-sched"], "thorough": ["c13-inputs", "c13-sched"]}),
+    "C17": dict(level="model_checking", engine="vsched",
+        technique="bounded-exhaustive inner-handler x request matrix through a real http.Server + stateless model checking of handlers over the shared writer pool",
+        level_text="(inputs) the full matrix of body x chunking class x WriteHeader x status x Content-Type x Content-Encoding x Content-Length x Accept-Encoding x Accept is served by the real gzip handler inside a real http.Server and compared with the same inner handler served without it. (schedules) every interleaving (unbounded for 2 handlers, bounded for 3) of concurrent handlers writing two chunks each over the shared pool, which is replaced by a deterministic LIFO so that recycling really happens.",
+        level_note="Only the direction the statement gives is asserted: a compressed response implies the three conditions (plus correctness of the compressed stream); not compressing an eligible response is not a violation. Bodiless statuses (204/304) labelled gzip with an empty body are not flagged.",
+        units=[
+        unit("c17-inputs", "proxy/gzip", ["gzip/c17_test.go"], "^TestVerifC17Inputs", engines=SCHED),
+        unit("c17-sched", "proxy/gzip", ["gzip/c17_test.go"], "^TestVerifC17Sched", engines=SCHED, shards={"quick": 1, "thorough": 16}, rewrite=[{"files": ["proxy/gzip/gzip_handler.go"], "opts": ["-imports", "-stmt"]}], race=True, sched_env={"GOMAXPROCS": "2"}),
+    ], layers={"quick": ["c17-inputs", "c17-sched"], "thorough": ["c17-inputs", "c17-sched"]}),
 }
 
 def layer_unit(pid, layer):
